@@ -263,7 +263,10 @@ def syntactic_calls_after_whitespace(prog, rep, rule="E7.p"):
             if g is None or g.kind == "closure":
                 continue
             syntactic = (g.name.startswith("parse_") and g.name != "parse_name") or (g.name in TOKEN_FNS and b not in lay.silent[fid])
-            if not syntactic or f.name in TOKEN_FNS:
+            # a look-ahead that decides how a whitespace-skipping function goes on (`while self.try_peek() == Some('.')`) is an
+            # optional item too: it must look at the text after the whitespace
+            lookahead = g.name in ("peek", "try_peek") and WS in lay.summary[fid] and f.name not in ("consume_whitespace", "consume_while", "skip_query")
+            if not (syntactic or lookahead) or f.name in TOKEN_FNS:
                 continue
             st = lay._apply(inn[b], lay.entry[fid])
             k = (f.name, g.name)
@@ -274,7 +277,7 @@ def syntactic_calls_after_whitespace(prog, rep, rule="E7.p"):
                 rep.ok(rule, key, sp_str(t["sp"]), "reached after consume_whitespace on every path")
             elif k in ADJACENT:
                 rep.ok(rule, key, sp_str(t["sp"]), "adjacent by grammar: " + ADJACENT[k])
-            elif g.name not in TOKEN_FNS and WS not in lay.summary[g.id]:
+            elif g.name not in TOKEN_FNS and g.name not in ("peek", "try_peek") and WS not in lay.summary[g.id]:
                 # a lexical function (it never skips whitespace itself: a name, a quantifier, a numeral): gluing it to the previous
                 # character is the grammar's choice of token (`@name`, `#true`, `.name`), not a layout dependence
                 rep.ok(rule, key, sp_str(t["sp"]), "lexical callee (reads one token, never skips whitespace): adjacent to the preceding sigil")
